@@ -431,4 +431,67 @@ theorem entry_run (cfg : Config) (rs : List Rec) (hr : cfg.reuse = false)
   rw [hp]
   simp only [LifeL.pOf, a2, a3, a5, a6]
 
+/-! ### `acceptedInc` tags exactly the accepted samples -/
+
+theorem accStep_snd (l : Last) (acc : List Acc) (r : Rec) :
+    (accStep (l, acc) r).2 = acc ++ (accStep (l, []) r).2 := by
+  cases r with
+  | sample pid tid t km pe ip chain =>
+    simp only [accStep]
+    split
+    · simp
+    · split <;> simp
+  | exit pid tid t => simp only [accStep]; split <;> simp
+  | comm pid tid nm ex t =>
+    cases ex
+    · simp [accStep]
+    · simp only [accStep]; split <;> simp
+  | fork => simp [accStep]
+  | mmap2 => simp [accStep]
+  | switchIn => simp [accStep]
+  | switchOut => simp [accStep]
+  | sched => simp [accStep]
+
+theorem newSpec_proj (last : Last) (l : Life.S) (r : Rec) :
+    (newSpec last l r).map (fun a => (a.pid, a.tid, a.t)) =
+      (accStep (last, []) r).2.map (fun a => (a.pid, a.tid, a.t)) := by
+  cases r with
+  | sample pid tid t km pe ip chain =>
+    by_cases h0 : tid = 0
+    · simp [newSpec, accStep, h0]
+    · by_cases hd : lastGet last pid tid = some t
+      · simp [newSpec, accStep, h0, hd]
+      · simp [newSpec, accStep, h0, hd]
+  | exit pid tid t => simp only [newSpec, accStep]; split <;> rfl
+  | comm pid tid nm ex t =>
+    cases ex
+    · rfl
+    · simp only [newSpec, accStep]; split <;> rfl
+  | fork => rfl
+  | mmap2 => rfl
+  | switchIn => rfl
+  | switchOut => rfl
+  | sched => rfl
+
+theorem acceptedInc_fold_proj (rs : List Rec) :
+    ∀ (last : Last) (l : Life.S) (out : List AccI) (acc : List Acc),
+      out.map (fun a => (a.pid, a.tid, a.t)) = acc.map (fun a => (a.pid, a.tid, a.t)) →
+      (rs.foldl accIncStep ((last, l), out)).2.map (fun a => (a.pid, a.tid, a.t)) =
+        (rs.foldl accStep (last, acc)).2.map (fun a => (a.pid, a.tid, a.t)) := by
+  induction rs with
+  | nil => intro last l out acc h; exact h
+  | cons r rs ih =>
+    intro last l out acc h
+    rw [List.foldl_cons, List.foldl_cons, accIncStep_eq]
+    have e : accStep (last, acc) r = ((accStep (last, []) r).1, acc ++ (accStep (last, []) r).2) := by
+      rw [← accStep_snd, ← accStep_fst last acc r]
+    rw [e]
+    apply ih
+    rw [List.map_append, List.map_append, h, newSpec_proj]
+
+/-- the incarnation-tagged samples are the accepted samples (same pid, tid, time, same order) -/
+theorem acceptedInc_accepted (ref : Nat) (rs : List Rec) :
+    (acceptedInc ref rs).map (fun a => (a.pid, a.tid, a.t)) = (accepted rs).map (fun a => (a.pid, a.tid, a.t)) :=
+  acceptedInc_fold_proj rs [] _ [] [] rfl
+
 end Conv
